@@ -46,7 +46,7 @@ def case(g, tier, ci):
     sg = SeqGen(g)
     SR = r.choice([1, 2, 10, 100, 1e3, 2.5, 1e6, 1e9, 12345.678, 1.2e9, 2.4e9])      # the last two: a period that is no whole number of ns
     N = r.randint(4, 40 if tier == "quick" else 300)
-    chans = r.sample([1, 2, 3, 4, "A", "B", "ch1", 7], r.randint(1, 6))
+    chans = r.sample([1, 2, 3, 4, "A", "B", "ch1", 7, "1", "7"], r.randint(1, 6))      # ("1" and 1 are two channels)
     ops = sg.element("e", SR, N, chans, raw_p=0.4, kinds=("ramp", "sine", "user"), flags_p=0.1, waits=0.2, nseg=(1, 4))
     k = r.random()
     sr_dev = False
@@ -94,6 +94,10 @@ def case(g, tier, ci):
             {"op": "el.SR", "id": "e"}, {"op": "el.getArrays", "id": "e", "time": r.random() < 0.5}, {"op": "el.channels", "id": "e"},
             {"op": "sq.new", "id": "s"}, {"op": "sq.setSR", "id": "s", "v": enc(SR)},
             {"op": "sq.addElement", "id": "s", "pos": 1, "el": "e"}, {"op": "sq.desc", "id": "s"}]
+    if len({str(c) for c in chans}) < len(chans):
+        # 1 and "1" on one element: two channels everywhere but in a description, whose keys are the printed ids (one entry
+        # there, in the code and not in the model) -- not described
+        ops = [o for o in ops if o["op"] != "sq.desc"]
     return ops
 
 
